@@ -55,6 +55,13 @@ class Path:
                 return "ok:?"
             e = rv.fields[0]
             if not self.grammar_ok:
+                # before the checksum comparison only the sentence grammar may reject (its nom
+                # error is formatted into the message); an error raised by the crate's own code
+                # with a message of its own (sequencing, limits) is a rejection of a line that
+                # passed the grammar
+                convs = [ev[1] for ev in self.events if ev[0] == "from_impl"]
+                if convs and "nom::Err" not in str(convs[-1]):
+                    return "err:early"
                 return "err:form"
             if isinstance(e, VApp) and e.defn == self.m.checksum_leaf:
                 return "err:checksum"
